@@ -1134,6 +1134,7 @@ def list_append(run, self, x):
     if isinstance(self, VSymList):
         run.ghost.setdefault("appended", []).append((self, x))
         return NONE
+    run.heap_writes.append((self, "append"))
     self.items.append(x)
     return NONE
 
